@@ -12,7 +12,7 @@ from verif.stubs.fakefs import world
 
 PROPERTY = "C18"
 B = h.bounds(
-    quick=dict(FLOW=4, HIST=4),
+    quick=dict(FLOW=4, HIST=3),
     thorough=dict(FLOW=5, HIST=4),
 )
 BOUNDS = dict(vars(B), meaning="flows of <= FLOW symbolic ints (bare or with context), crash "
@@ -273,7 +273,7 @@ CONDITIONS = [
     dict(fn="check_interrupted", budget=(70, 900),
          smoke=["check_interrupted([1, 2, 3], False, 3, 0, 0)",
                 "check_interrupted([1, 2, 3], False, 3, 2, 1)"]),
-    dict(fn="check_history", shards=(8, 16), budget=(70, 1200),
+    dict(fn="check_history", shards=(12, 16), budget=(70, 1200),
          smoke=["check_history([1, 2], [0, 0, 3], 1)", "check_history([1, 2], [0, 2, 1], 1)"]),
     dict(fn="check_two_caches", budget=(60, 600),
          smoke=["check_two_caches([1, 2], 3, 1)", "check_two_caches([1, 2], 1, 0)",
